@@ -289,20 +289,23 @@ def expect(model, op):
         return {'kind': 'range', 'type_either': type_ok is None}
     if e + skip >= L or e + skip + len(vals) > L:
         return {'kind': 'range', 'type_either': type_ok is None}
-    if skip + len(vals) > n:
-        return {'kind': 'range', 'type_either': type_ok is None}
     if n == 0 or len(vals) == 0:
         return {'kind': 'unspecified'}
-    if svc == 'write_tag' and len(vals) != n:
-        return {'kind': 'unspecified'}
+    if skip >= n:
+        return {'kind': 'range', 'type_either': type_ok is None}
+    surplus = skip + len(vals) > n
+    if svc == 'write_tag' and len(vals) < n:
+        return {'kind': 'unspecified', 'may_change': True}
     plan = []
-    for i, v in enumerate(vals):
+    for i, v in enumerate(vals[:n - skip]):
         cv, exact = convert(t, rt, v)
         if cv is None:
             return {'kind': 'type'}
         plan.append((e + skip + i, cv, exact))
-    return {'kind': 'write', 'name': name, 'type': t, 'plan': plan, 'must_accept': type_ok is True,
-            'exact': all(p[2] for p in plan)}
+    # more data than the declared element count: the statement does not say whether this is refused; if it is
+    # acknowledged, exactly the declared elements may change (never a neighbour, never the tag's length)
+    return {'kind': 'write', 'name': name, 'type': t, 'plan': plan, 'must_accept': type_ok is True and not surplus,
+            'exact': all(p[2] for p in plan), 'surplus': surplus}
 
 
 def apply_write(model, exp):
@@ -415,6 +418,8 @@ def judge(model, op, exp, out, member=False):
             return problems
         if exp['must_accept']:
             p('write-refused', {'reply': _r(rpy)})
+        elif exp.get('surplus'):
+            pass        # refusing a request that carries more data than it declares is fine, with any error status
         elif (st, ext) != TYPE:
             p('cross-type-write-refused-with-wrong-status', {'reply': _r(rpy), 'want': 'accept, or 0xFF/0x2107'})
         return problems
